@@ -652,7 +652,28 @@ func pluginExtra(t *tr) string {
 		t.errs = append(t.errs, "method Registry.Register not found")
 	} else {
 		x.option, x.opaque = map[string]bool{}, map[string]bool{}
-		x.vars = map[string]string{"pluginType": "pluginType", "name": "name", "ok": "alreadyRegistered"}
+		// by role, not by name: the reflect.Type parameter, the string parameter, the `ok` of the comma-ok map lookup
+		x.vars = map[string]string{}
+		for _, f := range fd.Type.Params.List {
+			ty := t.pkg.TypesInfo.TypeOf(f.Type)
+			for _, n := range f.Names {
+				switch {
+				case ty.String() == "reflect.Type":
+					x.vars[n.Name] = "pluginType"
+				case isString(ty):
+					x.vars[n.Name] = "name"
+				}
+			}
+		}
+		for _, s := range fd.Body.List {
+			if as, ok := s.(*ast.AssignStmt); ok && len(as.Lhs) == 2 && len(as.Rhs) == 1 {
+				if _, isIdx := as.Rhs[0].(*ast.IndexExpr); isIdx {
+					if id, ok := as.Lhs[1].(*ast.Ident); ok {
+						x.vars[id.Name] = "alreadyRegistered"
+					}
+				}
+			}
+		}
 		var conds []string
 		for _, s := range fd.Body.List {
 			if name, c := pluginCallName(s); name == "expect" {
@@ -699,41 +720,38 @@ func pluginExtra(t *tr) string {
 		t.errs = append(t.errs, "func isFactoryType not found")
 	}
 
-	// 2. convertFactoryOutParams
+	// 2. convertFactoryOutParams (canonical names: $reflect.Type = pluginType, $int = numOut, $[]reflect.Value = out)
 	if fd := pluginFindDecl(p, "convertFactoryOutParams"); fd != nil {
-		if ps := fd.Type.Params.List; len(ps) > 0 && len(ps[len(ps)-1].Names) == 1 {
-			pluginOutName = ps[len(ps)-1].Names[0].Name
-		}
 		var appendCond, trimCond, trimBody, appended string
 		okCases := ""
 		for _, s := range fd.Body.List {
 			switch v := s.(type) {
 			case *ast.SwitchStmt:
-				if pluginSrc(p.Fset, v.Tag) == "numOut" {
+				if pluginCanon(p, fd, v.Tag) == "$int" {
 					for _, c := range v.Body.List {
 						cc := c.(*ast.CaseClause)
 						if cc.List != nil && len(cc.Body) == 0 {
 							var ks []string
 							for _, e := range cc.List {
-								ks = append(ks, pluginSrc(p.Fset, e))
+								ks = append(ks, pluginCanon(p, fd, e))
 							}
 							okCases = strings.Join(ks, ",")
 						}
 					}
 				}
 			case *ast.IfStmt:
-				c := pluginSrc(p.Fset, v.Cond)
-				switch pluginNorm(c) {
-				case "len(OUT) < numOut":
+				c := pluginCanon(p, fd, v.Cond)
+				switch c {
+				case "len($[]reflect.Value) < $int":
 					appendCond = c
 					if len(v.Body.List) == 1 {
-						appended = pluginSrc(p.Fset, v.Body.List[0])
+						appended = pluginCanon(p, fd, v.Body.List[0])
 					}
-				case "numOut < len(OUT)":
+				case "$int < len($[]reflect.Value)":
 					trimCond = c
 					var parts []string
 					for _, bs := range v.Body.List {
-						parts = append(parts, pluginSrc(p.Fset, bs))
+						parts = append(parts, pluginCanon(p, fd, bs))
 					}
 					trimBody = strings.Join(parts, " ; ")
 				}
@@ -741,10 +759,10 @@ func pluginExtra(t *tr) string {
 		}
 		b.WriteString("/-- regenerated from `convertFactoryOutParams` (structural reading): accepted numOut values, the branch that appends a\nnil error, the branch that drops the error result (statement shapes, independent of variable names) -/\n")
 		fmt.Fprintf(&b, "def convertNumOutCases : String := %q\n", okCases)
-		fmt.Fprintf(&b, "def convertAppendCond : String := %q\n", pluginNorm(appendCond))
-		fmt.Fprintf(&b, "def convertAppended : String := %q\n", pluginNorm(appended))
-		fmt.Fprintf(&b, "def convertTrimCond : String := %q\n", pluginNorm(trimCond))
-		fmt.Fprintf(&b, "def convertTrimBody : String := %q\n\n", pluginNorm(trimBody))
+		fmt.Fprintf(&b, "def convertAppendCond : String := %q\n", appendCond)
+		fmt.Fprintf(&b, "def convertAppended : String := %q\n", appended)
+		fmt.Fprintf(&b, "def convertTrimCond : String := %q\n", trimCond)
+		fmt.Fprintf(&b, "def convertTrimBody : String := %q\n\n", trimBody)
 	} else {
 		t.errs = append(t.errs, "func convertFactoryOutParams not found")
 	}
@@ -752,7 +770,7 @@ func pluginExtra(t *tr) string {
 	if fd := pluginFindDecl(p, "pluginConstructor.NewFactory"); fd != nil {
 		var sw *ast.SwitchStmt
 		ast.Inspect(fd, func(n ast.Node) bool {
-			if s, ok := n.(*ast.SwitchStmt); ok && s.Tag != nil && pluginSrc(p.Fset, s.Tag) == "factoryType.NumOut()" {
+			if s, ok := n.(*ast.SwitchStmt); ok && s.Tag != nil && pluginCanon(p, fd, s.Tag) == "$reflect.Type.NumOut()" {
 				sw = s
 			}
 			return true
@@ -767,18 +785,18 @@ func pluginExtra(t *tr) string {
 				if cc.List != nil {
 					var ks []string
 					for _, e := range cc.List {
-						ks = append(ks, pluginSrc(p.Fset, e))
+						ks = append(ks, pluginCanon(p, fd, e))
 					}
 					key = strings.Join(ks, ",")
 				}
 				var parts []string
 				for _, bs := range cc.Body {
-					parts = append(parts, pluginSrc(p.Fset, bs))
+					parts = append(parts, pluginCanon(p, fd, bs))
 				}
 				body := strings.Join(parts, " ; ")
 				if key == "default" {
 					body = "panic(other)"
-					if len(cc.Body) != 1 || !strings.HasPrefix(pluginSrc(p.Fset, cc.Body[0]), "panic(") {
+					if len(cc.Body) != 1 || !strings.HasPrefix(pluginCanon(p, fd, cc.Body[0]), "panic(") {
 						body = strings.Join(parts, " ; ")
 					}
 				}
@@ -797,8 +815,8 @@ func pluginExtra(t *tr) string {
 		}
 		for _, s := range fd.Body.List {
 			if is, ok := s.(*ast.IfStmt); ok && len(is.Body.List) == 1 {
-				if _, ok := is.Body.List[0].(*ast.ReturnStmt); ok && strings.Contains(pluginSrc(p.Fset, is.Cond), "== factoryType") {
-					return pluginSrc(p.Fset, is.Cond) + " => " + pluginSrc(p.Fset, is.Body.List[0])
+				if _, ok := is.Body.List[0].(*ast.ReturnStmt); ok && strings.Contains(pluginCanon(p, fd, is.Cond), "== $reflect.Type") {
+					return pluginCanon(p, fd, is.Cond) + " => " + pluginCanon(p, fd, is.Body.List[0])
 				}
 			}
 		}
@@ -807,18 +825,19 @@ func pluginExtra(t *tr) string {
 	fmt.Fprintf(&b, "/-- regenerated: when the registered function itself is handed out by `NewFactory` -/\ndef pluginShortcut : String := %q\ndef factoryShortcut : String := %q\n\n",
 		short("pluginConstructor.NewFactory"), short("factoryConstructor.NewFactory"))
 
-	// 3. call sites of user code in core/plugin
-	b.WriteString("/-- regenerated: (function, called expression, call sites outside function literals, inside function literals, inside loops) -/\n")
+	// 3. call sites of user code in core/plugin (callees in canonical form)
+	b.WriteString("/-- regenerated: (function, called expression, call sites outside function literals, inside function literals, inside loops);\nvariables of the function are named by their type (`$<type>`), so renaming a local does not change the table -/\n")
 	b.WriteString(pluginSiteTable(t, p, "callSites", []pluginSite{
-		{"Registry.New", []string{"registered.defaultConfig.Get", "registered.constructor.NewPlugin", "fillConf"}},
-		{"Registry.NewFactory", []string{"registered.defaultConfig.Get", "registered.constructor.NewFactory", "fillConf"}},
-		{"defaultConfigContainer.Get", []string{"e.new", "fillConf"}},
-		{"defaultConfigContainer.new", []string{"e.newValue.Call"}},
-		{"pluginConstructor.NewPlugin", []string{"c.newPlugin.Call"}},
-		{"pluginConstructor.NewFactory", []string{"getMaybeConf", "c.newPlugin.Call", "convertFactoryOutParams"}},
-		{"factoryConstructor.NewPlugin", []string{"c.callNewFactory", "factory.Call"}},
-		{"factoryConstructor.NewFactory", []string{"getMaybeConf", "c.callNewFactory", "factory.Call", "convertFactoryOutParams"}},
-		{"factoryConstructor.callNewFactory", []string{"c.newFactory.Call"}},
+		{"Registry.New", []string{"$nameRegistryEntry.defaultConfig.Get", "$nameRegistryEntry.constructor.NewPlugin", "$func"}},
+		{"Registry.NewFactory", []string{"$nameRegistryEntry.defaultConfig.Get", "$nameRegistryEntry.constructor.NewFactory", "$func"}},
+		{"Registry.get", []string{"errors.Errorf"}},
+		{"defaultConfigContainer.Get", []string{"$defaultConfigContainer.new", "$func"}},
+		{"defaultConfigContainer.new", []string{"$defaultConfigContainer.newValue.Call"}},
+		{"pluginConstructor.NewPlugin", []string{"$*pluginConstructor.newPlugin.Call"}},
+		{"pluginConstructor.NewFactory", []string{"$func", "$*pluginConstructor.newPlugin.Call", "convertFactoryOutParams"}},
+		{"factoryConstructor.NewPlugin", []string{"$*factoryConstructor.callNewFactory", "$reflect.Value.Call"}},
+		{"factoryConstructor.NewFactory", []string{"$func", "$*factoryConstructor.callNewFactory", "$reflect.Value.Call", "convertFactoryOutParams"}},
+		{"factoryConstructor.callNewFactory", []string{"$*factoryConstructor.newFactory.Call"}},
 	}))
 	b.WriteString("\n")
 	// the fillConf check of NewFactory when no config is required
@@ -826,8 +845,8 @@ func pluginExtra(t *tr) string {
 		var conds []string
 		ast.Inspect(fd, func(n ast.Node) bool {
 			if is, ok := n.(*ast.IfStmt); ok {
-				c := pluginSrc(p.Fset, is.Cond)
-				if c == "registered.defaultConfig.configRequired()" || c == "fillConf != nil" {
+				c := pluginCanon(p, fd, is.Cond)
+				if c == "$nameRegistryEntry.defaultConfig.configRequired()" || c == "$func != nil" {
 					conds = append(conds, c)
 				}
 			}
@@ -835,16 +854,83 @@ func pluginExtra(t *tr) string {
 		})
 		fmt.Fprintf(&b, "/-- regenerated from `(*Registry).NewFactory`: the branch conditions around getMaybeConfig / the empty-struct fillConf check -/\ndef newFactoryBranches : List String := [%s]\n\n", pluginQuoteList(conds))
 	}
+	// `get`: the two map lookups, each with its own error, nothing else
+	if fd := pluginFindDecl(p, "Registry.get"); fd != nil {
+		var rows []string
+		for _, s := range fd.Body.List {
+			switch v := s.(type) {
+			case *ast.AssignStmt:
+				if len(v.Rhs) == 1 {
+					if ix, ok := v.Rhs[0].(*ast.IndexExpr); ok {
+						rows = append(rows, "lookup "+pluginCanon(p, fd, ix))
+					}
+				}
+			case *ast.IfStmt:
+				var parts []string
+				for _, bs := range v.Body.List {
+					switch w := bs.(type) {
+					case *ast.AssignStmt:
+						if c, ok := w.Rhs[0].(*ast.CallExpr); ok {
+							parts = append(parts, pluginCanon(p, fd, w.Lhs[0])+" = "+pluginCanon(p, fd, c.Fun)+"(…)")
+						} else {
+							parts = append(parts, pluginCanon(p, fd, bs))
+						}
+					default:
+						parts = append(parts, pluginCanon(p, fd, bs))
+					}
+				}
+				rows = append(rows, "if "+pluginCanon(p, fd, v.Cond)+" { "+strings.Join(parts, " ; ")+" }")
+			case *ast.ReturnStmt:
+				rows = append(rows, pluginCanon(p, fd, v))
+			default:
+				rows = append(rows, "other "+pluginCanon(p, fd, s))
+			}
+		}
+		fmt.Fprintf(&b, "/-- regenerated from `(*Registry).get`: look the plugin type up, then the name; each miss is an error result -/\ndef getSteps : List String := [%s]\n\n", pluginQuoteList(rows))
+	} else {
+		t.errs = append(t.errs, "method Registry.get not found")
+	}
+	// Register: how the name table is found / created and where the entry goes
+	if fd := pluginFindDecl(p, "Registry.Register"); fd != nil {
+		var rows []string
+		for _, s := range fd.Body.List {
+			if name, _ := pluginCallName(s); name == "expect" {
+				rows = append(rows, "expect")
+				continue
+			}
+			switch v := s.(type) {
+			case *ast.IfStmt:
+				var parts []string
+				for _, bs := range v.Body.List {
+					parts = append(parts, pluginCanon(p, fd, bs))
+				}
+				rows = append(rows, "if "+pluginCanon(p, fd, v.Cond)+" { "+strings.Join(parts, " ; ")+" }")
+			default:
+				// only what touches the name table matters for the order (fetching the optional argument does not)
+				if c := pluginCanon(p, fd, s); strings.Contains(c, "$nameRegistry") {
+					rows = append(rows, c)
+				}
+			}
+		}
+		fmt.Fprintf(&b, "/-- regenerated from `(*Registry).Register`: its statements that are expectations or touch the name table, in order (`expect` = one expectation, see `registerExpects`) -/\ndef registerSteps : List String := [%s]\n\n", pluginQuoteList(rows))
+	}
+	if fd := pluginFindDecl(p, "Registry.Lookup"); fd != nil {
+		var rows []string
+		for _, s := range fd.Body.List {
+			rows = append(rows, pluginCanon(p, fd, s))
+		}
+		fmt.Fprintf(&b, "/-- regenerated from `(*Registry).Lookup` -/\ndef lookupSteps : List String := [%s]\n\n", pluginQuoteList(rows))
+	}
 	// `new`: the kinds handled and what happens to a nil pointer / a non-addressable struct
 	if fd := pluginFindDecl(p, "defaultConfigContainer.new"); fd != nil {
 		var rows []string
 		ast.Inspect(fd, func(n ast.Node) bool {
-			if sw, ok := n.(*ast.SwitchStmt); ok && sw.Tag != nil && pluginSrc(p.Fset, sw.Tag) == "conf.Kind()" {
+			if sw, ok := n.(*ast.SwitchStmt); ok && sw.Tag != nil && pluginCanon(p, fd, sw.Tag) == "$reflect.Value.Kind()" {
 				for _, c := range sw.Body.List {
 					cc := c.(*ast.CaseClause)
 					key := "default"
 					if cc.List != nil {
-						key = pluginSrc(p.Fset, cc.List[0])
+						key = pluginCanon(p, fd, cc.List[0])
 					}
 					var parts []string
 					for _, bs := range cc.Body {
@@ -852,11 +938,11 @@ func pluginExtra(t *tr) string {
 							is := bs.(*ast.IfStmt)
 							var inner []string
 							for _, s2 := range is.Body.List {
-								inner = append(inner, pluginSrc(p.Fset, s2))
+								inner = append(inner, pluginCanon(p, fd, s2))
 							}
-							parts = append(parts, "if "+pluginSrc(p.Fset, is.Cond)+" { "+strings.Join(inner, " ; ")+" }")
+							parts = append(parts, "if "+pluginCanon(p, fd, is.Cond)+" { "+strings.Join(inner, " ; ")+" }")
 						} else {
-							parts = append(parts, pluginSrc(p.Fset, bs))
+							parts = append(parts, pluginCanon(p, fd, bs))
 						}
 					}
 					rows = append(rows, fmt.Sprintf("(%q, %q)", key, strings.Join(parts, " ; ")))
@@ -864,18 +950,18 @@ func pluginExtra(t *tr) string {
 			}
 			return true
 		})
-		fmt.Fprintf(&b, "/-- regenerated from `defaultConfigContainer.new`: per kind of the default value, how the config handed to fillConf\nand to the constructor is obtained -/\ndef newConfigSwitch : List (String × String) :=\n  [%s]\n\n", strings.Join(rows, ",\n   "))
+		fmt.Fprintf(&b, "/-- regenerated from `defaultConfigContainer.new`: per kind of the default value, how the config handed to fillConf\nand to the constructor is obtained ($reflect.Value = conf, $reflect.Value#1 = the addressable copy, $any = fillAddr) -/\ndef newConfigSwitch : List (String × String) :=\n  [%s]\n\n", strings.Join(rows, ",\n   "))
 	}
 
 	// engine: who calls the factories
 	eng := load("github.com/yandex/pandora/core/engine")
 	b.WriteString("/-- regenerated from core/engine: call sites of the gun / schedule factories -/\n")
 	b.WriteString(pluginSiteTable(t, eng, "engineSites", []pluginSite{
-		{"instancePool.warmUpGun", []string{"p.NewGun"}},
-		{"newInstance", []string{"deps.newGun", "deps.newSchedule"}},
+		{"instancePool.warmUpGun", []string{"$*instancePool.NewGun"}},
+		{"newInstance", []string{"$instanceDeps.newGun", "$instanceDeps.newSchedule"}},
 		{"runNewInstance", []string{"newInstance"}},
-		{"instancePool.startInstances", []string{"newInstance", "runNewInstance", "p.NewGun"}},
-		{"instancePool.buildNewInstanceSchedule", []string{"p.NewRPSSchedule"}},
+		{"instancePool.startInstances", []string{"newInstance", "runNewInstance", "$*instancePool.NewGun"}},
+		{"instancePool.buildNewInstanceSchedule", []string{"$*instancePool.NewRPSSchedule"}},
 	}))
 	// instanceDeps literal: newGun: p.NewGun
 	if fd := pluginFindDecl(eng, "instancePool.startInstances"); fd != nil {
@@ -884,7 +970,7 @@ func pluginExtra(t *tr) string {
 			if e, ok := n.(*ast.KeyValueExpr); ok {
 				k := pluginSrc(eng.Fset, e.Key)
 				if k == "newGun" || k == "newSchedule" {
-					kv = append(kv, k+": "+pluginSrc(eng.Fset, e.Value))
+					kv = append(kv, k+": "+pluginCanon(eng, fd, e.Value))
 				}
 			}
 			return true
@@ -895,7 +981,7 @@ func pluginExtra(t *tr) string {
 	if fd := pluginFindDecl(eng, "instancePool.buildNewInstanceSchedule"); fd != nil {
 		first := ""
 		if len(fd.Body.List) > 0 {
-			first = pluginSrc(eng.Fset, fd.Body.List[0])
+			first = pluginCanon(eng, fd, fd.Body.List[0])
 		}
 		fmt.Fprintf(&b, "def enginePerInstanceBranch : String := %q\n\n", first)
 	}
@@ -912,57 +998,32 @@ func pluginExtra(t *tr) string {
 			if fd.Name.Name == "RegisterPtr" {
 				var parts []string
 				for _, s := range fd.Body.List {
-					parts = append(parts, pluginSrc(reg.Fset, s))
+					parts = append(parts, pluginCanon(reg, fd, s))
 				}
-				fmt.Fprintf(&b, "/-- regenerated from core/register func `RegisterPtr` -/\ndef registerPtrBody : String := %q\n", strings.Join(parts, " ; "))
+				fmt.Fprintf(&b, "/-- regenerated from core/register func `RegisterPtr` ($any = ptr, $string = name, $any#1 = the constructor) -/\ndef registerPtrBody : String := %q\n", strings.Join(parts, " ; "))
 				continue
 			}
+			// the helper declares ONE variable of a pointer-to-interface type and passes it on
 			ptrT, call := "", ""
 			for _, s := range fd.Body.List {
 				switch v := s.(type) {
 				case *ast.DeclStmt:
 					if gd, ok := v.Decl.(*ast.GenDecl); ok && len(gd.Specs) == 1 {
-						if vs, ok := gd.Specs[0].(*ast.ValueSpec); ok && len(vs.Names) == 1 && vs.Names[0].Name == "ptr" {
-							ptrT = pluginSrc(reg.Fset, vs.Type)
+						if vs, ok := gd.Specs[0].(*ast.ValueSpec); ok && len(vs.Names) == 1 && vs.Type != nil {
+							if _, isPtr := reg.TypesInfo.TypeOf(vs.Type).(*types.Pointer); isPtr {
+								ptrT = pluginSrc(reg.Fset, vs.Type)
+							}
 						}
 					}
 				case *ast.ExprStmt:
-					call = pluginSrc(reg.Fset, v.X)
+					call = pluginCanon(reg, fd, v.X)
 				}
 			}
 			rows = append(rows, fmt.Sprintf("(%q, %q, %q)", fd.Name.Name, ptrT, call))
 		}
 	}
 	sort.Strings(rows)
-	fmt.Fprintf(&b, "/-- regenerated from core/register: (helper, type of its `ptr`, the call it makes) -/\ndef registerHelpers : List (String × String × String) :=\n  [%s]\n", strings.Join(rows, ",\n   "))
-	return b.String()
-}
-
-// pluginNorm renames the result-slice parameter of convertFactoryOutParams to OUT, so that the reading does not depend
-// on its name.
-var pluginOutName = "out"
-
-func pluginNorm(s string) string {
-	var b strings.Builder
-	i := 0
-	isId := func(c byte) bool { return c == '_' || c >= '0' && c <= '9' || c >= 'a' && c <= 'z' || c >= 'A' && c <= 'Z' }
-	for i < len(s) {
-		if isId(s[i]) {
-			j := i
-			for j < len(s) && isId(s[j]) {
-				j++
-			}
-			if s[i:j] == pluginOutName {
-				b.WriteString("OUT")
-			} else {
-				b.WriteString(s[i:j])
-			}
-			i = j
-			continue
-		}
-		b.WriteByte(s[i])
-		i++
-	}
+	fmt.Fprintf(&b, "/-- regenerated from core/register: (helper, type of its pointer variable, the call it makes) -/\ndef registerHelpers : List (String × String × String) :=\n  [%s]\n", strings.Join(rows, ",\n   "))
 	return b.String()
 }
 
